@@ -175,6 +175,7 @@ def run(tier, seed):
       return job, d, rc, se
 
     cases, objs = [], []
+    big_terms = [0]
     with concurrent.futures.ThreadPoolExecutor(max_workers=12) as ex:
       results = list(ex.map(do, jobs))
     for job, d, rc, se in results:
@@ -263,8 +264,15 @@ def run(tier, seed):
               rep.violation('after restart a suggested trial cannot be completed', dict(obj, got=jsonable(o2)))
       # model: recovered state = state after some prefix of the RPC's datastore calls
       pre = glist_pairs(job['prefix'])
-      cases.append('(%s, (%s, %s), %s)' % (pre, svc.g_rpc(rpc), oracle_of(rpc), svc.g_snapshot(rec_recovered)))
-      objs.append(obj)
+      term_ = '(%s, (%s, %s), %s)' % (pre, svc.g_rpc(rpc), oracle_of(rpc), svc.g_snapshot(rec_recovered))
+      if len(term_) > 120000 and big_terms[0] >= 6:
+        # the large-transaction histories (a study with 60-90 fat trials) are half a megabyte each as Gallina terms: a handful of
+        # them is replayed in the model, the rest is judged by the monitor above (all-or-nothing, invariants, continuation) only
+        rep.count('crash_case_too_large_for_model_replay')
+      else:
+        big_terms[0] += 1 if len(term_) > 120000 else 0
+        cases.append(term_)
+        objs.append(obj)
       try:
         proxy._inner._connection.close()
       except Exception:  # pylint: disable=broad-except
